@@ -145,7 +145,7 @@ def _transient_states(ctx: Context, c) -> set[str]:
     return out
 
 
-def _r2(ctx: Context, tree: str, N: Names) -> None:
+def _r2(ctx: Context, tree: str, N: Names, rule: str = "C05.R2") -> None:
     rep = ctx.rep
     for mod, cn in (("http11", "AsyncHTTP11Connection"), ("http2", "AsyncHTTP2Connection")):
         c = N.cls(mod, cn)
@@ -182,10 +182,10 @@ def _r2(ctx: Context, tree: str, N: Names) -> None:
         for region in ("before-gate", "after-gate"):
             for kind in ("Cancelled", "Exception"):
                 if not any(r.startswith(region) and k == kind for r, k in regions) and (region == "after-gate" or entry_transient):
-                    rep.ob("C05.R2", fkey(tree, f, f"{region}:{kind}"), True, where(f), f"every {kind} fault point {region} passes a recovering call ({sorted(recovering)})")
+                    rep.ob(rule, fkey(tree, f, f"{region}:{kind}"), True, where(f), f"every {kind} fault point {region} passes a recovering call ({sorted(recovering)})")
         for (region, kind), nodes in sorted(regions.items()):
             state = init_state[0] if region.startswith("before-gate") else "ACTIVE"
-            rep.ob("C05.R2", fkey(tree, f, f"{region}:{kind}"), False, where(f, nodes[0].ast),
+            rep.ob(rule, fkey(tree, f, f"{region}:{kind}"), False, where(f, nodes[0].ast),
                    f"{kind} at {witness(nodes)} abandons the request with the connection left `{state}` - "
                    f"not idle, not closed, not available, never expiring - and no recovering call ({sorted(recovering)}) on the way out: the pool slot is lost", witness(nodes))
 
@@ -200,7 +200,7 @@ def _ancestors(n):
 WRAPPERS = [("connection", "AsyncHTTPConnection"), ("socks_proxy", "AsyncSocks5Connection"), ("http_proxy", "AsyncTunnelHTTPConnection")]
 
 
-def _r3(ctx: Context, tree: str, N: Names) -> None:
+def _r3(ctx: Context, tree: str, N: Names, rule: str = "C05.R3") -> None:
     rep = ctx.rep
     for mod, cn in WRAPPERS:
         c = N.cls(mod, cn)
@@ -246,7 +246,7 @@ def _r3(ctx: Context, tree: str, N: Names) -> None:
                     continue
                 if region == "establishment" and any(r.startswith("establishment:") and k == kind for r, k in bad):
                     continue
-                rep.ob("C05.R3", fkey(tree, f, f"{region}:{kind}"), not nodes, where(f, nodes[0].ast if nodes else None),
+                rep.ob(rule, fkey(tree, f, f"{region}:{kind}"), not nodes, where(f, nodes[0].ast if nodes else None),
                        f"every {kind} in the {region} region marks the connection failed or closes it" if not nodes else
                        f"{kind} at {witness(nodes)} leaves {c.name} neither established nor marked failed/closed: it stays in the pool "
                        "('CONNECTING' / proxy connection ACTIVE) forever and can never be evicted", witness(nodes))
